@@ -7,6 +7,8 @@ From stdpp Require Import gmap list.
 From Coq Require Import NArith.
 From RecordUpdate Require Import RecordSet.
 From BS Require Import Sync.Types Sync.Model Sync.Proofs.SessionLemmas Sync.Proofs.Session.
+From BSGen Require Schedule.
+From BS Require Sync.Schedule.
 Import RecordSetNotations.
 Local Open Scope N_scope.
 
@@ -124,6 +126,22 @@ Proof. exact connected_implies_renet_connected_refuted. Qed.
 Theorem C15_refuted_existed_bit_always_set : ~ existed_bit_invariant_statement.
 Proof. exact existed_bit_invariant_refuted. Qed.
 
+(* The schedule the model assumes IS the schedule of the source: gen/Schedule.v is regenerated from
+   every add_systems(...) call of /repo/src on every run (system, schedule label, run conditions,
+   position in its chain) and must equal the table Model.run_system was written from; and
+   Model.run_system runs each system exactly when the run conditions the source gives it hold
+   (Sync/Schedule.v). A run condition added, dropped or changed in the source, or a system moved
+   between plugins, breaks the first theorem at build time. *)
+Theorem C15_schedule_matches_source : Schedule.src_schedule = Sync.Schedule.model_schedule.
+Proof. exact Sync.Schedule.schedule_matches_source. Qed.
+
+Theorem C15_systems_run_under_the_source_conditions :
+  forall pr s o cs,
+    p_panic pr = None -> Sync.Schedule.conds_of s = Some cs ->
+    let '(pr', e) := Sync.Schedule.edge_of pr s in
+    exists b, Sync.Schedule.eval_conds e pr cs = Some b /\ run_system pr s o = if b then run_body pr' s o else pr'.
+Proof. exact Sync.Schedule.run_system_follows_schedule. Qed.
+
 Print Assumptions C15_client_state_path.
 Print Assumptions C15_connected_only_after_transport_connected.
 Print Assumptions C15_client_back_to_disconnected_within_two_frames.
@@ -135,3 +153,5 @@ Print Assumptions C15_snapshot_then_finished_last.
 Print Assumptions C15_finished_implies_snapshot_applied.
 Print Assumptions C15_refuted_connected_implies_renet_connected.
 Print Assumptions C15_refuted_existed_bit_always_set.
+Print Assumptions C15_schedule_matches_source.
+Print Assumptions C15_systems_run_under_the_source_conditions.
